@@ -3,11 +3,11 @@
 # Like tools_mutant.sh, but applies the change to the scratch worktree /tmp/wtm (create it with tools_mkwt.sh) and points
 # the checks at it (VERIF_REPO / PYTHONPATH), so that /repo stays untouched while other runs use it.
 D="$1"; P="$2"; shift 2
-W=/tmp/wtm
+W=${WTM:-/tmp/wtm}
 cd $W || exit 9
 git diff --quiet || { echo "WORKTREE DIRTY"; exit 9; }
 echo "== demo on unchanged tree"; PYTHONPATH=$W/src /venv/bin/python "$D/demo.py" >/dev/null 2>&1; echo "demo rc(orig)=$?"
 git apply "$D/patch.diff" || { echo "PATCH FAILED"; exit 9; }
 echo "== demo on mutated tree"; PYTHONPATH=$W/src /venv/bin/python "$D/demo.py" >/dev/null 2>&1; echo "demo rc(mut)=$?"
-cd /verif && VERIF_REPO=$W PYTHONPATH=$W/src VERIF_EVIDENCE_DIR=/tmp/ev_mut ./check "$P" "$@" 2>/dev/null | grep -E "VIOLATION|SUMMARY|HARNESS"
+cd /verif && VERIF_REPO=$W PYTHONPATH=$W/src VERIF_EVIDENCE_DIR=${EVM:-/tmp/ev_mut} ./check "$P" "$@" 2>/dev/null | grep -E "VIOLATION|SUMMARY|HARNESS"
 cd $W && git checkout -- . && git status --short | head -3
